@@ -9,11 +9,12 @@ From Peppi Require Import Base.Bytes Base.Outcome Base.Stream Layout.Syntax Gen.
 Import ListNotations.
 Notation length := (@List.length _) (only parsing).
 
-Record achar := { ac_port : N; ac_fol : bool; ac_pre : list byte; ac_post : list byte }.
 Record aframe := {
   af_id : Z;
   af_start : list byte;            (* Frame Start payload after the id; [] before 2.2 *)
-  af_chars : list achar;           (* the characters that have events in this frame occurrence, in slot order *)
+  af_slots : list (option (list byte * list byte));
+                                   (* per character slot (port order, leader before follower): the Pre and Post payloads
+                                      after the 6-byte header if the character has events in this frame occurrence *)
   af_items : list (list byte);     (* Item payloads after the id *)
   af_end : list byte               (* Frame End payload after the id; [] before 3.0 *)
 }.
@@ -61,15 +62,22 @@ Fixpoint emit_gecko (k : nat) (pos : nat) (c : gecko_t) : list byte :=
       ++ ev Event_GeckoCodes ++ [n2b (if (k' =? 0)%nat then 1 else 0)] ++ emit_gecko k' (pos + 512) c
   end.
 
-Definition emit_char (pre : bool) (id : Z) (c : achar) : list byte :=
-  ev (if pre then Event_FramePre else Event_FramePost) ++ i32_bytes id
-  ++ [n2b (ac_port c); n2b (if ac_fol c then 1 else 0)] ++ (if pre then ac_pre c else ac_post c).
+Definition emit_char (pre : bool) (id : Z) (sl : N * bool) (o : option (list byte * list byte)) : list byte :=
+  match o with
+  | Some (p, q) =>
+      ev (if pre then Event_FramePre else Event_FramePost) ++ i32_bytes id
+      ++ [n2b (fst sl); n2b (if snd sl then 1 else 0)] ++ (if pre then p else q)
+  | None => []
+  end.
 
-Definition emit_frame (v : version) (f : aframe) : list byte :=
+Definition emit_chars (pre : bool) (id : Z) (slots : list (N * bool)) (os : list (option (list byte * list byte))) : list byte :=
+  flat_map (fun x => emit_char pre id (fst x) (snd x)) (combine slots os).
+
+Definition emit_frame (v : version) (slots : list (N * bool)) (f : aframe) : list byte :=
   (if vgte v 2 2 then ev Event_FrameStart ++ i32_bytes (af_id f) ++ af_start f else [])
-  ++ flat_map (emit_char true (af_id f)) (af_chars f)
+  ++ emit_chars true (af_id f) slots (af_slots f)
   ++ (if vgte v 3 0 then flat_map (fun it => ev Event_Item ++ i32_bytes (af_id f) ++ it) (af_items f) else [])
-  ++ flat_map (emit_char false (af_id f)) (af_chars f)
+  ++ emit_chars false (af_id f) slots (af_slots f)
   ++ (if vgte v 3 0 then ev Event_FrameEnd ++ i32_bytes (af_id f) ++ af_end f else []).
 
 Definition emit_end (r : replay) : list byte :=
@@ -79,10 +87,17 @@ Definition emit_end (r : replay) : list byte :=
   | TwoEnds b => ev Event_GameEnd ++ b ++ ev Event_GameEnd ++ b
   end.
 
+Definition slots_of (ports : list (N * bool)) : list (N * bool) :=
+  flat_map (fun p : N * bool => if snd p then [(fst p, false); (fst p, true)] else [(fst p, false)]) ports.
+
+(* the occupied character slots, from the start block (empty if the block is not accepted) *)
+Definition slots_r (r : replay) : list (N * bool) :=
+  match game_start (r_start r) with ROk st => slots_of (port_occupancy st) | _ => [] end.
+
 Definition raw_of (r : replay) : list byte :=
   emit_table (rec_table r) ++ ev Event_GameStart ++ r_start r
   ++ (match r_gecko r with Some c => emit_gecko (length (gk_bytes c) / 512) 0 c | None => [] end)
-  ++ flat_map (emit_frame (r_ver r)) (r_frames r)
+  ++ flat_map (emit_frame (r_ver r) (slots_r r)) (r_frames r)
   ++ emit_end r.
 
 Definition emit_meta (m : option utree) : list byte :=
@@ -95,25 +110,20 @@ Definition emit (r : replay) : list byte :=
   sig_slp ++ be_enc 4 (nn (length (raw_of r))) ++ raw_of r ++ emit_meta (r_meta r) ++ [x7d].
 
 (* ---- the game a replay denotes ---- *)
-Definition slots_of (ports : list (N * bool)) : list (N * bool) :=
-  flat_map (fun p : N * bool => if snd p then [(fst p, false); (fst p, true)] else [(fst p, false)]) ports.
+Definition add_slot (L : layout) (c : slot) (o : option (list byte * list byte)) : slot :=
+  {| sl_port := sl_port c; sl_fol := sl_fol c;
+     sl_data := match o with
+                | Some (p, q) => {| c_pre := c_pre (sl_data c) ++ [p]; c_post := c_post (sl_data c) ++ [q];
+                                    c_valid := option_map (fun b => b ++ [true]) (c_valid (sl_data c)) |}
+                | None => data_push_null L (sl_data c)
+                end |}.
 
-Definition find_char (cs : list achar) (port : N) (fol : bool) : option achar :=
-  find (fun c => N.eqb (ac_port c) port && Bool.eqb (ac_fol c) fol) cs.
-
-Definition add_char (L : layout) (cs : list achar) (port : N) (fol : bool) (d : cdata) : cdata :=
-  match find_char cs port fol with
-  | Some c => {| c_pre := c_pre d ++ [ac_pre c]; c_post := c_post d ++ [ac_post c];
-                 c_valid := option_map (fun b => b ++ [true]) (c_valid d) |}
-  | None => data_push_null L d
-  end.
+Fixpoint map2 {A B C} (f : A -> B -> C) (l : list A) (m : list B) : list C :=
+  match l, m with a :: l', b :: m' => f a b :: map2 f l' m' | _, _ => [] end.
 
 Definition add_frame (v : version) (L : layout) (fr : frames) (f : aframe) : frames :=
   {| f_ids := f_ids fr ++ [af_id f];
-     f_ports := map (fun p => {| p_port := p_port p;
-                                 p_leader := add_char L (af_chars f) (p_port p) false (p_leader p);
-                                 p_follower := option_map (add_char L (af_chars f) (p_port p) true) (p_follower p) |})
-                    (f_ports fr);
+     f_chars := map2 (add_slot L) (f_chars fr) (af_slots f);
      f_start := option_map (fun rows => rows ++ [af_start f]) (f_start fr);
      f_end := option_map (fun rows => rows ++ [af_end f]) (f_end fr);
      f_item_off := match f_item_off fr, f_item fr with
@@ -137,22 +147,18 @@ Definition game_of (o : opts) (r : replay) (st : start_t) (en : option end_t) : 
 (* ---- well-formedness (decidable) ---- *)
 Definition in_i32 (z : Z) : bool := (Z.leb (-2147483648) z) && (Z.ltb z 2147483648).
 
-Fixpoint is_subseq (cs : list (N * bool)) (sl : list (N * bool)) : bool :=
-  match cs, sl with
-  | [], _ => true
-  | _ :: _, [] => false
-  | c :: cr, s :: sr => if N.eqb (fst c) (fst s) && Bool.eqb (snd c) (snd s) then is_subseq cr sr else is_subseq cs sr
-  end.
-
 Definition wf_frame (v : version) (L : layout) (slots : list (N * bool)) (f : aframe) : bool :=
   in_i32 (af_id f)
   && (length (af_start f) =? (if vgte v 2 2 then sz_start L else 0))%nat
   && (length (af_end f) =? (if vgte v 3 0 then sz_end L else 0))%nat
   && (if vgte v 3 0 then forallb (fun it => (length it =? sz_item L)%nat) (af_items f)
       else match af_items f with [] => true | _ => false end)
-  && forallb (fun c => (length (ac_pre c) =? sz_pre L)%nat && (length (ac_post c) =? sz_post L)%nat && (ac_port c <? 4)%N) (af_chars f)
-  && is_subseq (map (fun c => (ac_port c, ac_fol c)) (af_chars f)) slots
-  && (if vgte v 2 2 then true else match af_chars f with [] => false | _ => true end).
+  && (length (af_slots f) =? length slots)%nat
+  && forallb (fun o => match o with
+                       | Some (p, q) => (length p =? sz_pre L)%nat && (length q =? sz_post L)%nat
+                       | None => true
+                       end) (af_slots f)
+  && (if vgte v 2 2 then true else existsb (fun o => match o with Some _ => true | None => false end) (af_slots f)).
 
 (* before 2.2 there are no rollbacks: ids are consecutive from FIRST_INDEX *)
 Fixpoint ids_from (z : Z) (fs : list aframe) : bool :=
